@@ -27,11 +27,16 @@ Definition uncovered_selects : list (string * bool * list string) :=
    wake it. Each such operation in the source must be one of the following, which cannot block forever:
    - the handshake reader goroutines report one error on errChan, a channel of capacity 1 that each
      goroutine sends to at most once (it returns right after);
-   - ForceTick sends on the unbuffered Force channel; nothing in the library calls it (checked below). *)
+   - ForceTick sends on the unbuffered Force channel; nothing in the library calls it (checked below);
+   - Send / Recv give back the one-slot semaphore (sendSem / recvSem) that the same call took, in a select with quit
+     and its timer, before working on a message of several packets: the token it put is still in the channel, so
+     the receive that takes it out again cannot block. *)
 Definition allowed_bare_ops : list (string * string) :=
   [ ("GoBackNConn.clientHandshake$go1", "errChan<-");
     ("GoBackNConn.serverHandshake$go1", "errChan<-");
-    ("IntervalAwareForceTicker.ForceTick", "t.Force<-") ].
+    ("IntervalAwareForceTicker.ForceTick", "t.Force<-");
+    ("GoBackNConn.Send", "<-g.sendSem");
+    ("GoBackNConn.Recv", "<-g.recvSem") ].
 
 Definition bare_eqb (a b : string * string) : bool :=
   String.eqb (fst a) (fst b) && String.eqb (snd a) (snd b).
